@@ -429,7 +429,9 @@ def run_case(case: dict, prefix: str, collect_layout: bool = False, checkpoint_a
     # (e) nobody is left waiting
     if world.deadlock is not None:
         waiting = {r: (k[0] if isinstance(k, tuple) else str(k)) for r, k in world.deadlock.items()}
-        sig = KNOWN_STARVATION if (starving and all(v == "all_gather" for v in waiting.values())) else "a rank is left waiting at " + ",".join(sorted(set(waiting.values())))
+        # starvation (F5): the starved rank skipped the group and sits at the step barrier while its peers wait inside the all-gather
+        starv = starving and "all_gather" in waiting.values() and set(waiting.values()) <= {"all_gather", "barrier"}
+        sig = KNOWN_STARVATION if starv else "a rank is left waiting at " + ",".join(sorted(set(waiting.values())))
         out.fail(f"{prefix}.e.no_rank_left_waiting", sig, f"waiting: {world.deadlock}; starving steps in the history: {starving}")
         return out, info
     real_errors = {r: e for r, e in errors.items() if e != "abort"}
